@@ -34,15 +34,32 @@ TRUST = ['rustc (nightly) type checking and MIR lowering are faithful to the sou
          'tree on every run (content-addressed cache keyed by the hash of Cargo.toml, Cargo.lock and src/**)']
 
 NOT_APPLICABLE = {
-    'C02': 'Equality of every sliding-window output with its from-scratch formula within a rounding allowance is a statement about '
-           'floating-point values over all streams; no sound static argument in reach bounds a float; the structural neighbours '
-           '(each component stepped once, peek = last output) are claimed under C05/C09.',
     'C06': 'Whether a signal fires exactly under its documented condition compares a branchless boolean/Action expression with a '
            'prose rule per indicator; no machine-readable oracle exists without executing the code.',
     # claimed in DESIGN.md, check not built yet in this commit (moved to `checks` as each is armed):
 }
 
 PROPS = {
+    'C02': dict(
+        rules=[r_linear.rule_L05_from_scratch],
+        feature_sets=_sets(['default'], ['default', 'u16', 'f32']),
+        rules_thorough=[on_build(r_linear.rule_L05_from_scratch, 'u16'), on_build(r_linear.rule_L05_from_scratch, 'f32')],
+        explanation=('(L05) for the single-window linear methods SMA, WMA, LinReg, Momentum, Derivative, Past and the windowed Integral: the window of the last n inputs is abstracted by its '
+                     'moments M0 = sum of the elements and M1 = sum of age * element (a push of x evicting p maps them to M0 + x - p and M1 + M0 - n p). new() and next() are interpreted over MIR '
+                     'with explicit coefficients over the atoms input, evicted element and old value of each accumulator. Decided for every length: the window is filled with the first value and '
+                     'pushed exactly the input once per step; every accumulator F satisfies, inductively, F = a*M0 + b*M1 with the (a, b) read off its coefficients of the input and of the evicted '
+                     'element (the M0 and M1 coefficient equations hold, and the constructor gives F the value of that combination on a window full of the first value); the returned value, '
+                     'rewritten in the moments of the NEW window, is the documented from-scratch formula: M0/n (SMA), (n*M0 - M1)/(n(n+1)/2) (WMA), the least-squares line through the n points '
+                     'evaluated at the newest point (LinReg), x - p, (x - p)/n, p, M0 (Momentum, Derivative, Past, Integral). Hence, in exact arithmetic, every output of every stream equals the formula evaluated from scratch on the last n inputs, '
+                     'the construction value standing in before the stream began. The table of formulas is the text of the property / the documentation, not read off the code.'),
+        not_decided=['SWMA, TRIMA, HMA (two or three windows; their weight sums are decided by L01 under C15), Conv (loop), VWMA (product of two streams), StDev / LinearVolatility / CCI / MeanAbsDev / MedianAbsDev (quadratic or selection), RateOfChange (ratio), windowed ADI (candle input): outside the moment domain, not decided',
+                     'the floating-point rounding allowance: the argument is over the reals; that the incremental sums do not drift is C07\'s subject'],
+        assumptions=TRUST,
+        technique='static analysis: abstract interpretation of MIR with explicit symbolic coefficients; inductive moment invariants of the window compared with the documented formula',
+        level_text=('For seven single-window linear methods the equality with the from-scratch formula is proved for every length and stream over the reals; multi-window, non-linear and '
+                    'candle-input methods and the rounding allowance are not claimed.'),
+        design_ref='DESIGN.md §11 "L05"',
+    ),
     'C03': dict(
         rules=[r_linear.rule_L04_recurrences],
         feature_sets=_sets(['default'], ['default', 'u16', 'f32']),
